@@ -119,6 +119,30 @@ Fixpoint dead_end (parts : list string) (doc : value) {struct parts} : Z :=
 Definition null_sensitive_val (v : value) : bool :=
   match v with VNull => true | _ => false end.
 
+(* the last component of the path is empty ("a."): iter_key_candidates returns the parent
+   itself, the statement reads "" as a field name (found by the proof of C01) *)
+Fixpoint ends_empty (parts : list string) : bool :=
+  match parts with
+  | [] => false
+  | p :: rest => match rest with [] => (p =? "") | _ => ends_empty rest end
+  end.
+
+(* a candidate on which the per-candidate $all of a multi-operator dict is outside the
+   model: an array whose first element is an array but not all of them (found by the proof) *)
+Definition all_unmodelled_cand (c : lookup) : bool :=
+  match c with
+  | Some (VArr ((VArr _ :: _) as xs)) => negb (all_lists (map Some xs))
+  | _ => false
+  end.
+Definition fops_has_all (os : fops) : bool :=
+  match fops_all os with Some _ => true | None => false end.
+
+(* the operator form of $elemMatch relies on the dict, read as a filter, raising
+   OperationFailure at its first key (an operator name); the parser guarantees it except
+   when the first key is $not (then the model says "unmodelled") *)
+Definition emq_falls_back (f : filter) : bool :=
+  match f with FAnd CTopUnknown _ => true | _ => false end.
+
 
 
 
@@ -161,7 +185,7 @@ with g_search (key : string) (s : search) (d : value) {struct s} : list reason :
   let parts := split_dots key in
   let C := candidates parts d in
   let de := dead_end parts d in
-  r_if (negb (path_modelled parts) || (key =? "")) R_NOT_FRAGMENT ++
+  r_if (negb (path_modelled parts) || (key =? "") || ends_empty parts) R_NOT_FRAGMENT ++
   match s with
   | SVal v =>
       eq_reasons v C ++
@@ -172,6 +196,8 @@ with g_search (key : string) (s : search) (d : value) {struct s} : list reason :
       r_if ((Nat.ltb 1 (fops_len os)) && (Nat.ltb 1 (List.length C))) R_MULTI ++
       r_if ((Nat.ltb 1 (fops_len os)) && match C with [] => true | _ => false end
             && fops_has_exists_false os) R_EXISTS_FALSE ++
+      r_if ((Nat.ltb 1 (fops_len os)) && fops_has_all os && existsb all_unmodelled_cand C)
+           R_NOT_FRAGMENT ++
       g_fops os key C de d
   | SMixed => [R_NOT_FRAGMENT]
   end
@@ -203,7 +229,11 @@ with g_fop (o : fop) (key : string) (C : list lookup) (de : Z) (d : value) {stru
   | OIn _ | ONin _ => [R_NOT_FRAGMENT]
   | OExists v =>
       r_if (negb (truthy v) && some_present C
-            && existsb (fun c => match c with None => true | _ => false end) C) R_EXISTS_FALSE
+            && existsb (fun c => match c with None => true | _ => false end) C) R_EXISTS_FALSE ++
+      (* a falsy operand other than False/0 on a path without candidates: the
+         `search == {'$exists': False}` shortcut does not fire and the clause fails *)
+      r_if (negb (truthy v) && negb (py_eq v (VBool false))
+            && match C with [] => true | _ => false end) R_EXISTS_FALSE
   | OType (VStr name) =>
       match type_pred name with Some (Some _) => [] | _ => [R_NOT_FRAGMENT] end
   | OType _ => [R_NOT_FRAGMENT]
@@ -230,7 +260,8 @@ with g_emq (q : emq) (xs : list value) {struct q} : list reason :=
   | EmBad => [R_NOT_FRAGMENT]
   | EmQ f s =>
       match s with
-      | SOps _ => flat_map (fun x => g_search "field" s (VDoc [("field", x)])) xs
+      | SOps _ => r_if (negb (emq_falls_back f)) R_NOT_FRAGMENT ++
+                  flat_map (fun x => g_search "field" s (VDoc [("field", x)])) xs
       | SMixed => [R_NOT_FRAGMENT]
       | SVal _ => flat_map (fun x => g_matches f x) xs
       end
